@@ -48,17 +48,17 @@ def cases(prop, tier, seed):
                                 dup=dup, mode=mode, b=b, sseed=int(rs.randint(0, 50)), key=[name, n, nl, dup, mode, b, t]))
         return out
     if prop == "C14":
-        per = 4 if tier == "quick" else 16
-        nmax = 8 if tier == "quick" else 14
+        per = 10 if tier == "quick" else 30
+        nmax = 9 if tier == "quick" else 14
         for name in names:
             z = ZOO[name]
             if name == "ParallelUtilityEstimationWrapper":
                 bs = [1]
             else:
-                bs = [1, 2, 3, 4]
+                bs = [2, 3, 1, 5, 4]
             for t in range(per if not z["slow"] else max(2, per // 2)):
                 n = int(rs.randint(max(3, z["min_n"]), (6 if z["slow"] else nmax) + 1))
-                nl = int(rs.choice([0, 1, 2, n - 1]))
+                nl = int(rs.choice([0, 0, 1, 2, n - 1]))
                 out.append(dict(kind="loop", cls=name, dseed=int(rs.randint(1 << 30)), n=n, nl=min(nl, n - 1), dup=("rand", "grid")[t % 2],
                                 b=int(bs[t % len(bs)]), sseed=int(rs.randint(0, 50)), key=[name, n, nl, t]))
         return out
@@ -356,7 +356,7 @@ def run_c08(case, fail):
     z = ZOO[name]
     if name.startswith("SubSamplingWrapper"):
         return
-    X, y = make_data(case["dseed"], case["n"], max(case["nl"], 1), z["kind"], "rand")
+    X, y = make_data(case["dseed"], case["n"], case["nl"] if case["t"] % 2 else max(case["nl"], 1), z["kind"], "rand")
     unl = np.where(np.isnan(y))[0]
     if len(unl) < 3:
         return
